@@ -14,7 +14,7 @@
    The hypotheses that remain are premises of the theorems below (nothing is assumed globally). *)
 From stdpp Require Import gmap strings sorting.
 Require Import Grits.Base Grits.Forms Grits.Expand Grits.TcTop Grits.Runtime.
-Require Import Grits.RuntimeFootprint Grits.proofs.RuntimeFacts Grits.proofs.Diamond Grits.proofs.Determinism Grits.proofs.AsyncSync Grits.proofs.DeterminismExamples.
+Require Import Grits.RuntimeFootprint Grits.proofs.RuntimeFacts Grits.proofs.Diamond Grits.proofs.Determinism Grits.proofs.AsyncSync Grits.proofs.RuntimeCheckFacts Grits.proofs.DeterminismExamples.
 
 Theorem C03_step_is_move : forall md D F c ch, step md D F c ch = sres_of c (move_of md D F c ch).
 Proof. exact step_move. Qed.
@@ -159,6 +159,18 @@ Theorem C03_async_sync_agree_partial : forall (D : STypes.tenv) (F : list fundef
       exists t2, exec_run f2 pick2 Async D F c = RQuiescent t2 /\ labels t2 ≡ₚ labels t1.
 Proof. exact async_sync_agree_partial. Qed.
 
+(* the executable check run by the correspondence driver (`compat-<mode>-<seed>`) on every
+   configuration the model visits is sound for the two remaining hypotheses *)
+Theorem C03_check_sound : forall md D F c,
+  bad_pairs md D F c = [] ->
+  (forall a b c1 c2, a ≠ b -> step md D F c a = SStep c1 -> step md D F c b = SStep c2 -> indep md D c a b) /\
+  (forall a b w e c2, step md D F c a = SError w e -> step md D F c b = SStep c2 -> indep_read md D c a b).
+Proof. exact check_sound. Qed.
+
+Theorem C03_exec_check_run : forall fuel pick md D F c st,
+  (exec_check fuel pick md D F c st).1 = exec_run fuel pick md D F c.
+Proof. exact exec_check_run. Qed.
+
 (* non-vacuity, on a program that goes through the model of the real front end *)
 Example C03_demo_two_orders_async :
   run_labels Async pick_first demo_text = Some ["right"; "left"; "done"] /\
@@ -202,6 +214,8 @@ Print Assumptions C03_no_longer_run.
 Print Assumptions C03_bufs_empty_init.
 Print Assumptions C03_sync_run_matched.
 Print Assumptions C03_async_sync_agree_partial.
+Print Assumptions C03_check_sound.
+Print Assumptions C03_exec_check_run.
 Print Assumptions C03_demo_two_orders_async.
 Print Assumptions C03_demo_two_orders_sync.
 Print Assumptions C03_demo_diamond_nonvacuous.
